@@ -45,6 +45,8 @@ type Net struct {
 	// OnRequest observes every stream opened by the client (virtual time).
 	OnRequest func(p peer.ID, at time.Time)
 	DialFail  func(p peer.ID) error
+	// Sleep, if set, replaces virtual-time waiting inside streams (stepped mock-clock mode).
+	Sleep func(d time.Duration)
 }
 
 func NewNet() *Net {
@@ -143,7 +145,7 @@ func (h *Host) NewStream(ctx context.Context, p peer.ID, pids ...protocol.ID) (n
 	if n.Plan != nil {
 		plan = n.Plan(p)
 	}
-	return &clientStream{peer: p, handler: handler, scripted: scripted, plan: plan, reset: make(chan struct{}), proto: pids[0]}, nil
+	return &clientStream{peer: p, handler: handler, scripted: scripted, plan: plan, reset: make(chan struct{}), proto: pids[0], sleep: n.Sleep}, nil
 }
 
 // clientStream is the client end. CloseWrite runs the responder synchronously.
@@ -161,6 +163,7 @@ type clientStream struct {
 	pos      int
 	started  bool
 	reset    chan struct{}
+	sleep    func(time.Duration)
 	resetOnce sync.Once
 	closed   bool
 }
@@ -182,6 +185,10 @@ func (s *clientStream) CloseWrite() error {
 }
 
 func (s *clientStream) wait(d time.Duration) error {
+	if d > 0 && s.sleep != nil {
+		s.sleep(d)
+		d = 0
+	}
 	if d <= 0 {
 		select {
 		case <-s.reset:
